@@ -12,7 +12,13 @@ import (
 	"golang.org/x/tools/go/ssa"
 )
 
-func init() { register("C03", "the parser builds the tree the source spells out", checkC03) }
+func init() {
+	register("C03", "the parser builds the tree the source spells out", func(p *Program, r *Report) {
+		checkC03(p, r)
+		r.Explain("R5 writer/reader agreement on number literals: a marker character the scanner copies from the input into the literal's text (under a test that admits it) is one the literal conversion looks for; otherwise the scanner must normalise it.")
+		c03NumberText(p, r)
+	})
+}
 
 // the operator ladder of the property statement, loosest to tightest ("?:" is keyed by its first token)
 type opClass struct {
@@ -823,4 +829,151 @@ func listSymbol(nm *NodeModel, sym int) bool {
 		}
 	}
 	return false
+}
+
+// c03NumberText (R5): writer/reader agreement on number literals. The scanner builds the literal's text, toNumber classifies it by
+// the characters it contains. A character the scanner copies from the input under a test that admits an upper-case letter must be
+// one toNumber's classification knows; otherwise the scanner has to normalise it (as it does for the exponent marker).
+func c03NumberText(p *Program, r *Report) {
+	sm, err := buildScanModel(p)
+	if err != nil {
+		r.Undecided("C03.R5", "scanner", "parser/lexer.go", err.Error())
+		return
+	}
+	sp := p.SSAPkg("parser")
+	var reader *ssa.Function
+	for _, fn := range SrcFuncs(sp) {
+		sg := fn.Signature
+		if sg.Recv() == nil && sg.Params().Len() == 1 && sg.Results().Len() == 2 && isReflectValue(sg.Results().At(0).Type()) {
+			if b, ok := sg.Params().At(0).Type().(*types.Basic); ok && b.Kind() == types.String {
+				reader = fn
+			}
+		}
+	}
+	if reader == nil {
+		r.Undecided("C03.R5", "toNumber", "parser/lexer.go", "literal conversion function not found")
+		return
+	}
+	known := map[rune]bool{}
+	for _, b := range reader.Blocks {
+		for _, in := range b.Instrs {
+			for _, op := range in.Operands(nil) {
+				if c, ok := (*op).(*ssa.Const); ok && c.Value != nil && c.Value.Kind() == constant.String {
+					for _, ch := range constant.StringVal(c.Value) {
+						known[ch] = true
+					}
+				}
+			}
+		}
+	}
+	n := 0
+	for _, fn := range SrcFuncs(sp) {
+		// scanners of literal text: methods returning (string, error)
+		sg := fn.Signature
+		if sg.Recv() == nil || sg.Results().Len() != 2 || !isErrorType(sg.Results().At(1).Type()) {
+			continue
+		}
+		if b, ok := sg.Results().At(0).Type().(*types.Basic); !ok || b.Kind() != types.String {
+			continue
+		}
+		// only the number scanner: it tests the cursor against '.'
+		testsDot := false
+		for _, b := range fn.Blocks {
+			for _, in := range b.Instrs {
+				if bo, ok := in.(*ssa.BinOp); ok && bo.Op == token.EQL {
+					if c, ok := bo.Y.(*ssa.Const); ok && c.Value != nil && c.Value.Kind() == constant.Int && c.Int64() == '.' {
+						if pc, ok := bo.X.(*ssa.Call); ok && sm.peekLike[staticCallee(pc)] {
+							testsDot = true
+						}
+					}
+				}
+			}
+		}
+		if !testsDot {
+			continue
+		}
+		k := 0
+		for _, b := range fn.Blocks {
+			for _, in := range b.Instrs {
+				c, _, els := builtinAppend(in)
+				if c == nil || len(els) != 1 {
+					continue
+				}
+				pc, ok := els[0].(*ssa.Call)
+				if !ok || !sm.peekLike[staticCallee(pc)] {
+					continue
+				}
+				// which characters can the cursor hold here: the constants of the tests that admit this block
+				admitted := map[rune]bool{}
+				var collect func(blk *ssa.BasicBlock, depth int)
+				collect = func(blk *ssa.BasicBlock, depth int) {
+					if depth > 3 {
+						return
+					}
+					for _, pr := range blk.Preds {
+						iff, ok := pr.Instrs[len(pr.Instrs)-1].(*ssa.If)
+						if !ok {
+							if len(pr.Succs) == 1 {
+								collect(pr, depth+1)
+							}
+							continue
+						}
+						bo, ok := iff.Cond.(*ssa.BinOp)
+						if !ok || bo.Op != token.EQL || pr.Succs[0] != blk {
+							continue
+						}
+						if tc, ok := bo.X.(*ssa.Call); !ok || !sm.peekLike[staticCallee(tc)] {
+							continue
+						}
+						if k, ok := bo.Y.(*ssa.Const); ok && k.Value != nil && k.Value.Kind() == constant.Int {
+							admitted[rune(k.Int64())] = true
+						}
+					}
+				}
+				for d := b; d != nil; d = d.Idom() {
+					// a class predicate on the cursor (isDigit(peek()), isHex(peek()) ...) as the nearest guard: a class, not a marker
+					byPredicate := false
+					for _, pr := range d.Preds {
+						if iff, ok := pr.Instrs[len(pr.Instrs)-1].(*ssa.If); ok && pr.Succs[0] == d {
+							if hc, ok := iff.Cond.(*ssa.Call); ok && len(hc.Call.Args) == 1 {
+								if ac, ok := hc.Call.Args[0].(*ssa.Call); ok && sm.peekLike[staticCallee(ac)] {
+									byPredicate = true
+								}
+							}
+						}
+					}
+					if byPredicate {
+						break
+					}
+					collect(d, 0)
+					if len(admitted) > 0 {
+						break
+					}
+				}
+				if len(admitted) == 0 {
+					continue // copied under a predicate (digits, hex digits): classes, not markers
+				}
+				n++
+				k++
+				bad := ""
+				for ch := range admitted {
+					if !known[ch] && (ch < '0' || ch > '9') && ch != '+' && ch != '-' {
+						bad += string(ch)
+					}
+				}
+				r.Check(bad == "", "C03.R5", fmt.Sprintf("%s|copied marker #%d", funcName(fn), k), p.Pos(c.Pos()), "every marker character copied into the literal text is one the literal conversion looks for",
+					"the scanner copies the character(s) "+fmt.Sprintf("%q", bad)+" into a number literal's text as they are spelled, but the conversion recognises the literal's form only by "+fmt.Sprintf("%q", keysOfRunes(known))+": a literal spelled with them is misclassified (e.g. 1E3 taken for an integer and rejected)")
+			}
+		}
+	}
+	r.Note("C03.R5 copied marker sites", n)
+}
+
+func keysOfRunes(m map[rune]bool) string {
+	var rs []rune
+	for k := range m {
+		rs = append(rs, k)
+	}
+	sort.Slice(rs, func(i, j int) bool { return rs[i] < rs[j] })
+	return string(rs)
 }
